@@ -215,20 +215,31 @@ func (t *tracker) setBad(s string) {
 	}
 }
 
+// observe runs after every step, on the kernel goroutine (token kernel) or on whichever task just yielded (bubble
+// kernel). Reading the client's published state (VerifCurrent, renderLive) is instrumented on purpose: a later write
+// of the repository into something it has published is a genuine race. The tracker's own fields are the harness's
+// business and are touched only in //go:norace helpers, so that tasks taking turns at it create neither reports
+// nor happens-before edges.
 func (t *tracker) observe(cl *d2.Client) {
 	svc, id, live := cl.VerifCurrent(service, cluster)
+	r := renderLive(live)
+	sr := "nil"
+	if svc != nil {
+		sr = strings.Join(svc.PrioritizedSchemes, ",")
+	}
+	t.record(svc, id, live, r, sr)
+}
+
+//go:norace
+func (t *tracker) record(svc *d2.Service, id interface{}, live map[string]*d2.Uri, r, sr string) {
 	if n := len(t.uriVers); n == 0 || t.uriVers[n-1].id != id {
-		t.uriVers = append(t.uriVers, version{id, live, renderLive(live)})
-	} else if r := renderLive(live); r != t.uriVers[n-1].render {
+		t.uriVers = append(t.uriVers, version{id, live, r})
+	} else if r != t.uriVers[n-1].render {
 		t.setBad(fmt.Sprintf("snapshot #%d changed in place after publication: was %q, now %q", n-1, t.uriVers[n-1].render, r))
 	}
 	if n := len(t.svcVers); n == 0 || t.svcVers[n-1] != svc {
 		t.svcVers = append(t.svcVers, svc)
-		r := "nil"
-		if svc != nil {
-			r = strings.Join(svc.PrioritizedSchemes, ",")
-		}
-		t.svcRend = append(t.svcRend, r)
+		t.svcRend = append(t.svcRend, sr)
 	}
 }
 
